@@ -240,7 +240,8 @@ package datalog
 //@ loop 0 invariant forall k int :: 0 <= k && k < len(result) ==> memberOf(result[k], t) && memberOf(result[k], s)
 //@ ensures wf: setWF(result) && fresh(arr(result))
 //@ ensures sound: forall k int :: 0 <= k && k < len(result) ==> memberOf(result[k], t) && memberOf(result[k], s)
-// not claimed (solver budget): completeness, every s[j] that occurs in t occurs in result
+//@ loop 0 invariant complete: forall j int :: { s[j] } 0 <= j && j < #i && memberOf(s[j], t) ==> memberOf(s[j], result)
+//@ ensures complete: forall j int :: { s[j] } 0 <= j && j < len(s) && memberOf(s[j], t) ==> memberOf(s[j], result)
 
 //@ func (s Set) Union(t Set) (result Set)
 //@ serves C06 C10
@@ -252,7 +253,8 @@ package datalog
 //@ ensures wf: setWF(result) && fresh(arr(result))
 //@ ensures sound: forall k int :: 0 <= k && k < len(result) ==> memberOf(result[k], t) || memberOf(result[k], s)
 //@ ensures has_left: forall j int :: 0 <= j && j < len(s) ==> result[j] == s[j]
-// not claimed (solver budget): has_right, every t[j] occurs in result
+//@ loop 0 invariant has_right: forall j int :: { t[j] } 0 <= j && j < #i ==> memberOf(t[j], result)
+//@ ensures has_right: forall j int :: { t[j] } 0 <= j && j < len(t) ==> memberOf(t[j], result)
 
 // ---------------------------------------------------------------------------
 // operators over sets, equality, regular expressions
@@ -288,6 +290,7 @@ package datalog
 //@ modifies nothing
 //@ ensures wf: err == nil ==> termWF(res)
 //@ ensures sets: left is Set && right is Set ==> err == nil && res is Set && setWF(res.(Set)) && (forall k int :: 0 <= k && k < len(res.(Set)) ==> memberOf(res.(Set)[k], left.(Set)) && memberOf(res.(Set)[k], right.(Set)))
+//@ ensures sets_complete: left is Set && right is Set ==> (forall j int :: { left.(Set)[j] } 0 <= j && j < len(left.(Set)) && memberOf(left.(Set)[j], right.(Set)) ==> memberOf(left.(Set)[j], res.(Set)))
 //@ ensures illtyped: !(left is Set && right is Set) ==> err != nil && res == nil
 
 //@ func (Union) Eval(left Term, right Term, _ *SymbolTable) (res Term, err error)
@@ -296,6 +299,7 @@ package datalog
 //@ modifies nothing
 //@ ensures wf: err == nil ==> termWF(res)
 //@ ensures sets: left is Set && right is Set ==> err == nil && res is Set && setWF(res.(Set)) && (forall k int :: 0 <= k && k < len(res.(Set)) ==> memberOf(res.(Set)[k], left.(Set)) || memberOf(res.(Set)[k], right.(Set))) && (forall j int :: 0 <= j && j < len(left.(Set)) ==> res.(Set)[j] == left.(Set)[j])
+//@ ensures sets_complete: left is Set && right is Set ==> (forall j int :: { right.(Set)[j] } 0 <= j && j < len(right.(Set)) ==> memberOf(right.(Set)[j], res.(Set)))
 //@ ensures illtyped: !(left is Set && right is Set) ==> err != nil && res == nil
 
 //@ func (Regex) Eval(left Term, right Term, symbols *SymbolTable) (res Term, err error)
